@@ -304,6 +304,8 @@ def run_pair(cap, binp, scripts):
 def batch_worker(job):
     """job = (cap, binp, groups); group = (client, stream bytes, term, variants[(marks, flags), fill])"""
     cap, binp, groups = job
+    groups = [(cl, st, te, ([((m, 0), 0xEE) for m in all_marks(len(st), v[1])] if v and v[0] == "all" else v))
+              for (cl, st, te, v) in groups]
     scripts, index = [], []
     for gi, (client, stream, term, variants) in enumerate(groups):
         for vi, (v, fill) in enumerate(variants):
@@ -736,48 +738,50 @@ def run(ctx, out):
     exh_plan = [
         # (cap, client, alphabet of tokens, max tokens, max stream bytes, chunk boundary kinds)
         (6, "mix", B(0x01, 0x02, 0x0D, 0x0A, 0x83, 0xFF), 5 if thorough else 4, 8, (0, 1, 2)),
-        (6, "mix", B(0x00, 0x07, 0x0D, 0x0A, 0x80), 6 if thorough else 4, 8, (0, 1, 2)),
-        (6, "line", B(0x0D, 0x0A, 0x41), 9 if thorough else 6, 9, (0, 1, 2) if thorough else (0, 2)),
-        (6, "raw", B(0x00, 0x01), 10 if thorough else 8, 10, (0, 2)),
-        (6, "raw", B(0x00, 0x06, 0xFF), 7 if thorough else 5, 8, (0, 1, 2)),
-        (6, "raw", [H(0), H(1), H(2), H(6), H(7)] + B(0x41, 0xFF), 5 if thorough else 4, 11 if thorough else 9, (0, 2)),
-        (6, "ws", B(0x81, 0x80, 0x02, 0x00), 8 if thorough else 5, 8, (0, 2)),
+        (6, "mix", B(0x00, 0x07, 0x0D, 0x0A, 0x80), 5 if thorough else 4, 8, (0, 1, 2)),
+        (6, "line", B(0x0D, 0x0A, 0x41), 8 if thorough else 6, 9, (0, 2)),
+        (6, "line", B(0x0D, 0x0A, 0x41), 6 if thorough else 4, 9, (0, 1, 2)),
+        (6, "raw", B(0x00, 0x01), 9 if thorough else 8, 10, (0, 2)),
+        (6, "raw", B(0x00, 0x06, 0xFF), 6 if thorough else 5, 8, (0, 1, 2)),
+        (6, "raw", [H(0), H(1), H(2), H(6), H(7)] + B(0x41, 0xFF), 5 if thorough else 4, 10 if thorough else 9, (0, 2)),
+        (6, "ws", B(0x81, 0x80, 0x02, 0x00), 6 if thorough else 5, 8, (0, 2)),
         (6, "ws", [bytes([0x81, 0x80]), bytes([0x82, 0x82]), bytes([0x82, 0x86]), bytes([0x81, 0x87]), bytes([0x81, 0x01]), bytes([0x2A])],
-         6 if thorough else 4, 10 if thorough else 8, (0, 2)),
+         5 if thorough else 4, 9 if thorough else 8, (0, 2)),
     ]
     for cap, client, alpha, maxtok, maxbytes, kinds in exh_plan:
-        groups = []
         count = 0
         seen_streams = set()
+        cur, cur_n = [], 0
         for n in range(0, maxtok + 1):
             for tup in itertools.product(alpha, repeat=n):
                 stream = b"".join(tup)
                 if len(stream) > maxbytes or stream in seen_streams:
                     continue
                 seen_streams.add(stream)
+                nv = len(kinds) ** max(0, len(stream) - 1)
                 for term in ("none", "E", "X"):
-                    variants = [((m, 0), 0xEE) for m in all_marks(len(stream), kinds)]
-                    count += len(variants)
-                    groups.append((client, stream, term, variants))
+                    count += nv
+                    cur.append((client, stream, term, ("all", kinds)))
+                    cur_n += nv
+                    if cur_n >= 8000:
+                        jobs.append((cap, bins[cap], cur))
+                        cur, cur_n = [], 0
+        if cur:
+            jobs.append((cap, bins[cap], cur))
         exh.append({"cap": cap, "client": client, "alphabet": [a.hex() for a in alpha], "max_tokens": maxtok,
                     "max_stream_bytes": maxbytes, "streams": len(seen_streams),
                     "chunk_boundary_kinds": list(kinds), "terminals": ["none", "E", "X"], "scenarios": count})
-        # batches of roughly equal scenario count
-        cur, cur_n = [], 0
-        for g in groups:
-            cur.append(g)
-            cur_n += len(g[3])
-            if cur_n >= 6000:
-                jobs.append((cap, bins[cap], cur))
-                cur, cur_n = [], 0
-        if cur:
-            jobs.append((cap, bins[cap], cur))
+    if os.environ.get("C09_PLAN_ONLY"):
+        for e in exh:
+            C.log("exh", e["client"], e["alphabet"], e["streams"], e["scenarios"])
+        C.log("jobs", len(jobs))
+        return
 
     # ---- run everything
     total = {"scenarios": 0, "groups": 0, "outcomes": {}, "clients": {}, "reads": {}, "compactions": 0,
              "deliveries": 0, "nontrivial": 0, "evals": 0, "events": 0}
     problems = []
-    jobs.sort(key=lambda j: -sum(len(g[3]) * (len(g[1]) + 4) for g in j[2]))
+    jobs.sort(key=lambda j: -sum((len(g[3][1]) ** max(0, len(g[1]) - 1) if g[3] and g[3][0] == "all" else len(g[3])) * (len(g[1]) + 4) for g in j[2]))
     with concurrent.futures.ProcessPoolExecutor(max_workers=min(C.NPROC, 16)) as ex:
         for stats, probs in ex.map(batch_worker, jobs, chunksize=1):
             for k, v in stats.items():
